@@ -369,6 +369,8 @@ def gen_cases(ctx):
         c["ssl"] = rng.random() < 0.25
         c["two_pairs"] = rng.random() < 0.3
         c["slices"] = rng.choice([2, 3, 4])
+        # optional Gaussian weighting of the ACS region before the maps are estimated (None / 0 switch it off)
+        c["sens_gauss"] = rng.choice([None, None, 0.3, 0.7, 2.0]) if c["sens"] else None
         cases.append(c)
     return cases
 
@@ -397,7 +399,8 @@ def build_pipeline(c, supervised=True, **extra):
               crop=(c["h"] - 2, c["w"] - 3) if c["crop"] else None, rescale=(c["h"], c["w"] + 2) if c["rescale"] else None, pad=(c["h"] + 3, c["w"] + 4) if c["pad"] else None,
               padding_eps=0.0001 if c["zero_pad"] else 0.0, estimate_body_coil_image=c["body"], estimate_sensitivity_maps=c["sens"], sensitivity_maps_type=M.SensitivityMapType(c["sens_type"]),
               delete_acs_mask=c["del_acs"], delete_kspace=c["del_kspace"], image_recon_type=M.ReconstructionType(c["recon"]), compress_coils=max(1, c["coils"] - 1) if c["compress"] else None,
-              pad_coils=c["coils"] + 2 if c["pad_coils"] else None, scaling_key=c["scaling"], scale_percentile=0.99 if c["percentile"] else None, use_seed=True)
+              pad_coils=c["coils"] + 2 if c["pad_coils"] else None, scaling_key=c["scaling"], scale_percentile=0.99 if c["percentile"] else None, use_seed=True,
+              sensitivity_maps_gaussian=c.get("sens_gauss"))
     kw.update(extra)
     return M.build_mri_transforms(**kw)
 
@@ -568,6 +571,7 @@ def oracles(ctx, deep):
         ssl = rng.random() < 0.25
         short = {k: c[k] for k in FLAGS + ["scaling", "percentile", "coils", "h", "w", "three", "sens_type", "recon", "seed", "full_mask"]}
         short["ssl"] = ssl
+        short["sens_gauss"] = c.get("sens_gauss")
         extra = {}
         if ssl:
             extra = dict(transforms_type=M.TransformsType.SSL_SSDU, mask_split_ratio=0.4)
@@ -612,6 +616,16 @@ def oracles(ctx, deep):
                     good = bool(torch.allclose(want, w, rtol=2e-4, atol=2e-5 * max(float(want.abs().max()), 1e-30)))
                 if not good:
                     add(Violation("scale-equivariant", "multiplying the raw k-space by %g changes output %s (%s comparison; max diff %.3g)" % (factor, ks, "bit-exact" if exact else "1e-4 relative", float((want.float() - w.float()).abs().max())), {"config": short, "factor": factor, "key": ks}, {"kind": "value", "key": ks}))
+        # the same sample once more through the same pipeline object: the earlier calls must have left nothing behind
+        try:
+            again = p(raw_sample(c, 1.0))
+            for k, v in base.items():
+                ks = str(getattr(k, "value", k))
+                w = {str(getattr(k2, "value", k2)): v2 for k2, v2 in again.items()}.get(ks)
+                if torch.is_tensor(v) and (w is None or w.shape != v.shape or not torch.equal(torch.nan_to_num(v.float()), torch.nan_to_num(w.float()))):
+                    add(Violation("pipeline-object-history", "the same sample through the same pipeline object a second time (after %d other calls) gives another %s" % (len(factors), ks), {"config": dict(short, sens_gauss=c.get("sens_gauss")), "key": ks}, {"kind": "history", "key": ks}))
+        except _errors() as e:  # noqa
+            add(Violation("pipeline-raises", "the pipeline raises %s for a sample it has served before" % type(e).__name__, {"config": short}, {"kind": "raises-again"}))
         # self-consistency of the outputs
         b = {str(getattr(k, "value", k)): v for k, v in base.items()}
         if not ssl:
